@@ -13,6 +13,7 @@ import (
 
 // Srv is one server of the simulated running HAProxy.
 type Srv struct {
+	Opts   string // the remaining keywords of the server line (ssl, sni, verify, crt, check …), in the order written
 	Name   string
 	Addr   string
 	Port   int
@@ -169,6 +170,7 @@ func serversOf(sec *Section) []*Srv {
 			} else {
 				srv.Addr = l[2]
 			}
+			var opts []string
 			for j := 3; j < len(l); j++ {
 				switch l[j] {
 				case "disabled":
@@ -176,13 +178,22 @@ func serversOf(sec *Section) []*Srv {
 				case "weight":
 					if j+1 < len(l) {
 						srv.Weight, _ = strconv.Atoi(l[j+1])
+						j++
 					}
 				case "cookie":
 					if j+1 < len(l) {
 						srv.Cookie = l[j+1]
+						j++
 					}
+				case "id":
+					// a label (C07 judges uniqueness)
+					j++
+				default:
+					// every other keyword of the line is behaviour: ssl / sni / verify / crt / ca-file / check … / send-proxy / proto / alpn
+					opts = append(opts, l[j])
 				}
 			}
+			srv.Opts = strings.Join(opts, " ")
 			if srv.State == "ready" && srv.Weight == 0 {
 				srv.State = "drain"
 			}
